@@ -247,3 +247,72 @@ UNITS = [
          assumptions=["atomic_add treated as sequential read-modify-write", "gather kernels deliver detector < calorimeter size and deposit > 0 (non-zero filter set by SimpleCalo)"],
          note="SimpleCaloExecutor: tally[det] += deposit exactly once, all other tallies untouched, nothing for slots without detector; both in-body CELER_ASSERTs hold"),
 ]
+
+
+# ---------------------------------------------------------------------------
+# StepParams constructor: merge of selections and filters over the registered callbacks (span extraction)
+# ---------------------------------------------------------------------------
+from vkit.extract import LoopContracts  # noqa: E402
+
+SPC = "src/celeritas/user/detail/StepParams.cc"
+
+SP_MODEL = """
+#define NCB 8
+typedef struct { size_type ndet; bool nonzero_energy_deposition; } Filters;     /* StepInterface::Filters {detectors (map), nonzero_energy_deposition} */
+unsigned g_sel[NCB]; Filters g_filters[NCB]; size_type g_ncb;                   /* ghost: what each registered callback declares */
+int g_threw;                                                                    /* CELER_VALIDATE threw */
+bool g_and; unsigned g_or;                                                      /* ghost: specified merge, in lock-step */
+#define CELER_VALIDATE_C(c) if (!(c)) { g_threw = 1; return; }
+/* detector map insertion of one callback's volumes (std::map; may report a duplicate volume): assumed */
+bool MAP_insert_all(size_type cb) __CPROVER_requires(cb < NCB) __CPROVER_assigns() __CPROVER_ensures(__CPROVER_return_value == 0 || __CPROVER_return_value == 1);
+bool out_nonzero; unsigned out_selection;                                       /* the merged values the constructor stores in StepParamsData */
+"""
+SP_RULES = [
+    Rule(r"StepSelection selection;", "unsigned selection = 0;   /* StepSelection as a bit set: operator|= is bitwise or, operator bool is != 0 */", 1, note="StepSelection -> bit set"),
+    Rule(r"CELER_ASSERT\(!selection\);", "CELER_ASSERT(!selection); g_and = 1; g_or = 0; /* ghost init */", 1, note="ghost init"),
+    Rule(r"StepInterface::MapVolumeDetector detector_map;", "", 1, note="std::map dropped (insertions stubbed)"),
+    Rule(r"bool nonzero_energy_deposition\{([^{}]*)\};", r"bool nonzero_energy_deposition = \1;", 1, note="brace initialisation"),
+    Rule(r"HasDetectors has_det = HasDetectors::unknown;", "int has_det = HD_unknown;", 1, note="local enum class -> int constants"),
+    Rule(r"for \(SPStepInterface const& sp_interface : callbacks\)\s*\{", "for (size_type ci_ = 0; ci_ < g_ncb; ++ci_)\n    {\n        g_and = g_and && g_filters[ci_].nonzero_energy_deposition; g_or = g_or | g_sel[ci_]; /* ghost: the specified merge (filter only if ALL callbacks ask for it; selection = union) */", 1, note="range-for over the callbacks vector -> index loop over the ghost tables; ghost lock-step"),
+    Rule(r"auto&& this_selection = sp_interface->selection\(\);", "unsigned this_selection = g_sel[ci_];", 1, note="virtual call -> ghost table"),
+    Rule(r"CELER_VALIDATE\(([^,]*),.*?\);", r"CELER_VALIDATE_C(\1)", "+", flags=16, note="CELER_VALIDATE -> ghost throw flag + early return"),
+    Rule(r"auto const&& filters = sp_interface->filters\(\);", "Filters filters = g_filters[ci_];", 1, note="virtual call -> ghost table"),
+    Rule(r"for \(auto const& kv : filters\.detectors\)\s*\{.*?CELER_VALIDATE_C\(inserted\)\s*\}", "{ bool inserted = MAP_insert_all(ci_); CELER_VALIDATE_C(inserted) }", 1, flags=16, note="std::map insertion loop -> stub (uniqueness validation kept)"),
+    Rule(r"filters\.detectors\.empty\(\)", "(filters.ndet == 0)", 1, note="map::empty()"),
+    Rule(r"auto this_has_detectors =", "int this_has_detectors =", 1, note="auto -> int"),
+    Rule(r"HasDetectors::(\w+)", r"HD_\1", "+", note="local enum class -> int constants"),
+    LoopContracts([
+        "    __CPROVER_assigns(ci_, selection, nonzero_energy_deposition, has_det, g_and, g_or, g_threw)\n"
+        "    __CPROVER_loop_invariant(ci_ <= g_ncb && g_threw == 0 && nonzero_energy_deposition == g_and && selection == g_or)\n"
+        "    __CPROVER_decreases(g_ncb - ci_)\n"]),
+]
+
+
+def build_step_params_merge(ctx):
+    pc = ctx.span(SPC, r"StepSelection selection;", r"CELER_ASSERT\(selection\);", SP_RULES, name="StepParams::StepParams (merge over callbacks)")
+    return (HDR + SP_MODEL + "enum { HD_unknown = -1, HD_none = 0, HD_all = 1 };\n" + """
+void SP_merge(void)
+__CPROVER_requires(g_ncb >= 1 && g_ncb <= NCB && g_threw == 0)
+__CPROVER_assigns(g_and, g_or, g_threw, out_nonzero, out_selection)
+/* unless construction is rejected: steps with zero deposit are filtered only if EVERY registered callback asked for it; the gathered selection is the union */
+__CPROVER_ensures(!g_threw ==> (out_nonzero == g_and && out_selection == g_or && out_selection != 0))
+{
+    """ + pc.body + """
+    out_nonzero = nonzero_energy_deposition; out_selection = selection;   /* host_data.nonzero_energy_deposition / host_data.selection */
+}
+void h_spm(void)
+{
+    size_type n; g_ncb = n;
+    for (unsigned i = 0; i < NCB; ++i) { unsigned r; g_filters[i].nonzero_energy_deposition = (r != 0); }
+    SP_merge();
+    VERIF_CANARY();
+}
+""")
+
+
+UNITS += [
+    Unit("c17_step_params_merge", build_step_params_merge, "h_spm", enforce="SP_merge", replace=["MAP_insert_all"], loop_contracts=True, unwind=10, timeout=300,
+         must_have=[r"SP_merge.postcondition", r"loop_invariant_step", r"celer_assert"], checks=["--bounds-check", "--pointer-check"],
+         assumptions=["StepSelection abstracted to a bit set; std::map insertion stubbed; the span is cut out of the constructor (from `StepSelection selection;` to `CELER_ASSERT(selection);`)"],
+         note="StepParams constructor: non-zero-deposit filter = AND over callbacks, selection = OR over callbacks (lock-step loop invariant, any number of callbacks <= 8)"),
+]
